@@ -216,6 +216,11 @@ def run(tier, rep):
                             "URLs up to 60000 bytes, real caller processes whose command line / user / exe name put a multi-byte character across byte 4096 of the texts the agent builds (denied and allowed); observer = "
                             "process-wide panic hook (location), each request must get an HTTP response and a probe request must be served afterwards. non-trivial = input crossing a cut with a multi-byte character or "
                             "containing non-ASCII header bytes; distinct by (site, alignment, width)")
+    if tier == "thorough":
+        from .. import miri
+        mr = common.rng("c13-miri")
+        corpus = [{"site": "write_event", "text": t} for t, _ in boundary_strings(mr, 4096)[::2]] + [{"site": "status", "text": t} for t, _ in boundary_strings(mr, 1024)[::2]]
+        miri.run({"truncation": corpus}, [], rep)
     args = [{"shard": 0, "tier": tier, "layer": "sites"}, {"shard": 1, "tier": tier, "layer": "e2e"}]
     for res in sandbox.run_many("vf.props.c13", "worker", args, workers=2, timeout=1500):
         rep.merge_worker(res)
